@@ -15,6 +15,9 @@ theorem u8_toNat {n : Nat} (h : n < 256) : (u8 n).toNat = n := by
 @[simp] theorem u8_toNat_mod (n : Nat) : (u8 n).toNat = n % 256 := by
   unfold u8; rw [UInt8.toNat_ofNat']
 
+theorem u8_eq_iff (n : Nat) (b : UInt8) : u8 n = b ↔ n % 256 = b.toNat := by
+  rw [← UInt8.toNat_inj, u8_toNat_mod]
+
 @[simp] theorem u8_toNat_self (b : UInt8) : u8 b.toNat = b := by
   unfold u8; exact UInt8.ofNat_toNat
 
